@@ -138,7 +138,8 @@ def order_tokens(tokens: list):
         else:
             n_operators += 1 if t.type == TokenType.Op1 else 2
 
-            while operators:
+            # Prefix operator binds to what follows: it never flushes pending operators
+            while operators and t.type != TokenType.Op1:
                 if t.priority <= operators[-1].priority:
                     operands.append(operators.pop())
                 else:
